@@ -1,6 +1,7 @@
 (* C07: a replica fed with unaltered exports, under every schedule, holds a prefix of the
-   primary's history (replica_prefix); the counter-example for the code as found (stale BlRoot in
-   the pooled tx holder) and the partial statement that survives it. *)
+   primary's history (replica_prefix).  (Before /repo commit 7c27871 performPrecommit left the BlRoot
+   of the pooled tx holder's previous use in a header with BlTxID = 0 and this theorem was refuted by
+   deliver 1, deliver 2, discard since 1, deliver 1; the harness still runs that schedule.) *)
 From V Require Import Repl.Spec Repl.Lemmas.
 From Coq Require Import ZifyN ZifyNat ZifyBool.
 
@@ -156,18 +157,11 @@ Hypothesis PV : primary_valid H P = true.
 Definition genuine (r : txrec) : Prop := exists j p, nth_error P j = Some p /\ matches r p.
 Definition ids (l : list txrec) : Prop :=
   forall i r, nth_error l i = Some r -> h_id (t_hdr r) = N.of_nat i + 1.
-Definition first_ok (st : store) : Prop :=
-  s_com st = [] ->
-  match physical st with
-  | r :: _ => h_id (t_hdr r) = 1 /\ h_prevalh (t_hdr r) = H []
-  | [] => True
-  end.
-Definition stale_safe (st : store) : Prop :=
-  (s_hold st = zeros32 \/ 1 <= pre_id st) /\ first_ok st.
+(* every record of the chain carries its position as id; every record of the chain and of the tx log
+   (live, discarded, or left behind the logical end) is a copy of a record of the primary *)
 Record Inv (st : store) : Prop := {
   inv_ids : ids (chain st);
-  inv_gen : forall r, In r (chain st) \/ In r (physical st) -> genuine r;
-  inv_stale : c_stale c = true -> stale_safe st }.
+  inv_gen : forall r, In r (chain st) \/ In r (physical st) -> genuine r }.
 
 Lemma valid_nth : forall l id j p, valid_from H id l = true -> nth_error l j = Some p ->
   rec_valid H (id + N.of_nat j) p = true.
@@ -179,15 +173,6 @@ Proof.
 Qed.
 Lemma P_nth j p : nth_error P j = Some p -> rec_valid H (N.of_nat j + 1) p = true.
 Proof. intros E. rewrite N.add_comm. apply (valid_nth P 1 j p PV E). Qed.
-
-Lemma linked_nth : forall l id j p, linked_from id l = true -> nth_error l j = Some p ->
-  id + N.of_nat j = 1 \/ 0 < h_bltxid (t_hdr p).
-Proof.
-  induction l as [|x l IH]; intros id j p V E; [destruct j; discriminate|].
-  simpl in V. apply andb_prop in V as [V1 V2]. destruct j as [|j]; simpl in E.
-  - inversion E; subst. apply orb_prop in V1 as [V1|V1]; [left; apply N.eqb_eq in V1; lia | right; apply N.ltb_lt; auto].
-  - destruct (IH (id + 1) j p V2 E); [left; lia | right; auto].
-Qed.
 
 Lemma matches_hdr r p : matches r p -> t_hdr r = t_hdr p /\ t_alh r = t_alh p.
 Proof. intros [->| ->]; auto. Qed.
@@ -230,31 +215,19 @@ Qed.
 
 Lemma Inv_may_commit st : Inv st -> Inv (may_commit c st).
 Proof.
-  intros [I1 I2 I3]. split.
+  intros [I1 I2]. split.
   - rewrite may_commit_chain. auto.
   - intros r [I|I]; apply I2; [left; rewrite may_commit_chain in I; auto | right; apply physical_may_commit; auto].
-  - intros S. destruct (I3 S) as [A B]. split.
-    + rewrite may_commit_hold, may_commit_pre_id. auto.
-    + destruct (may_commit_cases c st) as [->|N]; auto. intros E. contradiction.
 Qed.
 
-Lemma Inv_ext st st' : chain st' = chain st -> physical st' = physical st -> s_hold st' = s_hold st ->
-  s_com st' = s_com st -> Inv st -> Inv st'.
-Proof.
-  intros E1 E2 E3 E4 [I1 I2 I3]. split.
-  - rewrite E1; auto.
-  - rewrite E1, E2; auto.
-  - intros S. destruct (I3 S) as [A B]. split.
-    + unfold pre_id. rewrite E3, E1. auto.
-    + unfold first_ok. rewrite E2, E4. auto.
-Qed.
+Lemma Inv_ext st st' : chain st' = chain st -> physical st' = physical st -> Inv st -> Inv st'.
+Proof. intros E1 E2 [I1 I2]. split; rewrite ?E1, ?E2; auto. Qed.
 
-Lemma Inv_init : Inv store_init.
+Lemma Inv_init : Inv (store_open c).
 Proof.
   split.
   - intros i r E. destruct i; discriminate.
   - intros r [I|I]; contradiction.
-  - intros _. split; [left; reflexivity | intros _; exact I].
 Qed.
 
 (* ---- an accepted delivery of an unaltered export appends the primary's record ---- *)
@@ -266,10 +239,9 @@ Proof. destruct h; reflexivity. Qed.
 
 Lemma deliver_rec st skip j p tr b k :
   nth_error P j = Some p -> export_rec tr p = Ok b -> precheck H c skip st b = Ok k ->
-  (c_stale c = false \/ 0 < h_bltxid (t_hdr p) \/ s_hold st = zeros32) ->
-  k_hdr k = t_hdr p /\ h_id (t_hdr p) = pre_id st + 1 /\ matches (new_rec H c st k) p.
+  k_hdr k = t_hdr p /\ h_id (t_hdr p) = pre_id st + 1 /\ matches (new_rec H st k) p.
 Proof.
-  intros En Ex Ep Hs.
+  intros En Ex Ep.
   pose proof (P_nth _ _ En) as V.
   destruct (valid_conj _ _ V) as (V1 & V2 & V3 & V4 & V5 & V6 & V7).
   destruct (precheck_inv _ _ _ _ _ Ep) as (hdr & xes & tr0 & Epar & Kh & Ke & Keh & _ & Kid & Kbl1 & Kbl2 & Kpa).
@@ -283,17 +255,13 @@ Proof.
   { rewrite Ke in Keh. rewrite eh_roundtrip in Keh by auto. congruence. }
   assert (Ene : lenN (k_ents k) = h_nentries (t_hdr p)).
   { rewrite Ke, V4. unfold lenN. rewrite !map_length. reflexivity. }
-  assert (Ebl : hold_after c st k = h_blroot (t_hdr p)).
-  { unfold hold_after. rewrite Kh. rewrite <- Kbl2, Kbl1.
-    destruct (N.ltb_spec 0 (h_bltxid (t_hdr p))) as [L|L]; auto.
-    destruct Hs as [Q|[Q|Q]]; [rewrite Q; reflexivity | lia | rewrite Q; destruct (c_stale c); reflexivity]. }
-  unfold new_rec. rewrite Kh, Eeh, Ene, Ebl, <- Kid, Kpa. rewrite hdr_eta.
+  unfold new_rec. rewrite Kh, Eeh, Ene, Kbl2, <- Kid, Kpa. rewrite hdr_eta.
   rewrite Ke, ents_roundtrip by auto. rewrite <- V7.
   destruct tr; [right|left]; destruct p; reflexivity.
 Qed.
 
-Lemma chain_snoc (st : store) r a g hd :
-  chain {| s_com := s_com st; s_tail := s_tail st ++ [(r, true)]; s_allowed := a; s_hold := hd; s_ghost := g |}
+Lemma chain_snoc (st : store) r a g cp :
+  chain {| s_com := s_com st; s_tail := s_tail st ++ [(r, true)]; s_allowed := a; s_ghost := g; s_cap := cp |}
   = chain st ++ [r].
 Proof. unfold chain. cbn [s_com s_tail]. rewrite live_app, app_assoc. reflexivity. Qed.
 
@@ -302,79 +270,37 @@ Proof. reflexivity. Qed.
 
 Lemma deliver_ok st skip j p tr b st' :
   Inv st -> nth_error P j = Some p -> export_rec tr p = Ok b ->
-  replicate H c skip st b = Ok st' -> (c_stale c = true -> linked P = true) -> Inv st'.
+  replicate H c skip st b = Ok st' -> Inv st'.
 Proof.
-  intros [I1 I2 I3] En Ex Er Hl.
+  intros [I1 I2] En Ex Er.
   unfold replicate in Er. destruct (precheck H c skip st b) as [k| |] eqn:Ep; cbn [bind] in Er; try discriminate.
-  unfold perform in Er. destruct (c_maxActive c <=? lenN (live (s_tail st))); try discriminate.
+  unfold perform in Er. destruct (s_cap st <=? lenN (live (s_tail st))); try discriminate.
   inversion Er; subst st'; clear Er.
-  assert (Hs : c_stale c = false \/ 0 < h_bltxid (t_hdr p) \/ s_hold st = zeros32).
-  { destruct (c_stale c) eqn:S; auto. right.
-    destruct (I3 eq_refl) as [[Z|Z] _]; auto. left.
-    destruct (precheck_inv _ _ _ _ _ Ep) as (hdr & xes & tr0 & Epar & Kh & _ & _ & _ & Kid & _).
-    rewrite (export_parse _ _ _ _ (P_nth _ _ En) Ex) in Epar.
-    assert (Q1 : hdr = t_hdr p) by congruence. rewrite Q1 in *.
-    destruct (valid_conj _ _ (P_nth _ _ En)) as (_ & _ & V3 & _).
-    destruct (linked_nth P 1 j p (Hl eq_refl) En) as [L|L]; auto. lia. }
-  destruct (deliver_rec st skip j p tr b k En Ex Ep Hs) as (Kh & Kid & M).
-  set (r := new_rec H c st k) in *.
+  destruct (deliver_rec st skip j p tr b k En Ex Ep) as (Kh & Kid & M).
+  set (r := new_rec H st k) in *.
+  assert (G : genuine r) by (exists j, p; auto).
   apply Inv_may_commit. split.
   - rewrite chain_snoc. apply ids_snoc; auto.
   - intros x Hx. rewrite chain_snoc in Hx. unfold physical in Hx. cbn [s_tail s_ghost] in Hx.
     rewrite map_app, app_nil_r in Hx. simpl in Hx.
-    assert (G : genuine r) by (exists j, p; auto).
     destruct Hx as [Hx|Hx]; apply in_app_or in Hx as [Hx|Hx].
     + apply I2; auto.
     + destruct Hx as [<-|[]]; auto.
     + apply I2. right. unfold physical. apply in_or_app; auto.
     + destruct Hx as [<-|[]]; auto.
-  - intros S. destruct (I3 S) as [_ F]. split.
-    + right. rewrite pre_id_len, chain_snoc, lenN_app. unfold lenN at 2. simpl. lia.
-    + intros Ec. cbn [s_com] in Ec. unfold physical. cbn [s_tail s_ghost]. rewrite map_app, app_nil_r.
-      specialize (F Ec). unfold physical in F.
-      destruct (s_tail st) as [|x t] eqn:Et; simpl.
-      * subst r. unfold new_rec. cbn [t_hdr h_id h_prevalh].
-        unfold pre_id, pre_alh, chain. rewrite Ec, Et. simpl. split; reflexivity.
-      * simpl in F. exact F.
 Qed.
 
 Lemma deliver_err st skip j p tr b :
-  Inv st -> nth_error P j = Some p -> export_rec tr p = Ok b ->
-  (c_stale c = true -> linked P = true) ->
-  Inv (failed_st H c skip st b).
+  Inv st -> nth_error P j = Some p -> export_rec tr p = Ok b -> Inv (failed_st H c skip st b).
 Proof.
-  intros [I1 I2 I3] En Ex Hl. unfold failed_st.
+  intros [I1 I2] En Ex. unfold failed_st.
   destruct (precheck H c skip st b) as [k| |] eqn:Ep; [|split; auto..].
-  assert (Hs : c_stale c = false \/ 0 < h_bltxid (t_hdr p) \/ s_hold st = zeros32).
-  { destruct (c_stale c) eqn:S; auto. right.
-    destruct (I3 eq_refl) as [[Z|Z] _]; auto. left.
-    destruct (precheck_inv _ _ _ _ _ Ep) as (hdr & xes & tr0 & Epar & Kh & _ & _ & _ & Kid & _).
-    rewrite (export_parse _ _ _ _ (P_nth _ _ En) Ex) in Epar.
-    assert (Q1 : hdr = t_hdr p) by congruence. rewrite Q1 in *.
-    destruct (valid_conj _ _ (P_nth _ _ En)) as (_ & _ & V3 & _).
-    destruct (linked_nth P 1 j p (Hl eq_refl) En) as [L|L]; auto. lia. }
-  destruct (deliver_rec st skip j p tr b k En Ex Ep Hs) as (Kh & Kid & M).
-  split; [exact I1| |].
-  - intros r [I|I]; [apply I2; auto|]. unfold physical in I. cbn [s_tail s_ghost] in I.
-    apply in_app_or in I as [I|I].
-    + apply I2. right. unfold physical. apply in_or_app; auto.
-    + destruct I as [<-|[]]. exists j, p; auto.
-  - intros S. destruct (I3 S) as [Z F]. split.
-    + cbn [s_hold].
-      change (pre_id {| s_com := s_com st; s_tail := s_tail st; s_allowed := s_allowed st;
-                        s_hold := hold_after c st k; s_ghost := [new_rec H c st k] |}) with (pre_id st).
-      destruct Z as [Z|Z]; auto.
-      destruct (N.le_gt_cases 1 (pre_id st)) as [L|L]; auto. left.
-      destruct (valid_conj _ _ (P_nth _ _ En)) as (V1 & _).
-      unfold txhdr_valid in V1. apply andb_prop in V1 as [V1 _]. apply andb_prop in V1 as [_ Vb].
-      apply N.ltb_lt in Vb.
-      unfold hold_after. rewrite Kh, S.
-      destruct (N.ltb_spec 0 (h_bltxid (t_hdr p))); auto. lia.
-    + intros Ec. cbn [s_com] in Ec. specialize (F Ec). unfold physical in *. cbn [s_tail s_ghost].
-      destruct (s_tail st) as [|x t] eqn:Et; cbn [map app].
-      * unfold new_rec. cbn [t_hdr h_id h_prevalh].
-        unfold pre_id, pre_alh, chain. rewrite Ec, Et. simpl. split; reflexivity.
-      * simpl in F. exact F.
+  destruct (deliver_rec st skip j p tr b k En Ex Ep) as (Kh & Kid & M).
+  split; [exact I1|].
+  intros r [I|I]; [apply I2; auto|]. unfold physical in I. cbn [s_tail s_ghost] in I.
+  apply in_app_or in I as [I|I].
+  - apply I2. right. unfold physical. apply in_or_app; auto.
+  - destruct I as [<-|[]]. exists j, p; auto.
 Qed.
 
 (* ---- allowance, discard, reopen ---- *)
@@ -390,13 +316,13 @@ Proof. induction l as [|y l IH]; intros [|n] x I; simpl in *; auto; try contradi
 Lemma In_skipn {A} : forall (l : list A) n x, In x (skipn n l) -> In x l.
 Proof. induction l as [|y l IH]; intros [|n] x I; simpl in *; auto. right. eauto. Qed.
 
-Lemma discard_inv st t s n : c_stale c = false -> Inv st -> discard st t = Ok (s, n) -> Inv s.
+Lemma discard_inv st t s n : Inv st -> discard st t = Ok (s, n) -> Inv s.
 Proof.
-  intros S [I1 I2 I3] E. unfold discard in E.
+  intros [I1 I2] E. unfold discard in E.
   destruct (t =? 0); try discriminate. destruct (t <=? com_id st); try discriminate.
   destruct (pre_id st <? t); inversion E; subst; clear E; [split; auto|].
   assert (Ec : chain {| s_com := s_com st; s_tail := kill_last (N.to_nat (pre_id st + 1 - t)) (s_tail st);
-                        s_allowed := s_allowed st; s_hold := s_hold st; s_ghost := s_ghost st |}
+                        s_allowed := s_allowed st; s_ghost := s_ghost st; s_cap := s_cap st |}
                = firstn (length (s_com st) + (length (live (s_tail st)) - N.to_nat (pre_id st + 1 - t))) (chain st)).
   { unfold chain. cbn [s_com s_tail]. rewrite kill_last_live. rewrite firstn_app_2. reflexivity. }
   split.
@@ -404,26 +330,11 @@ Proof.
   - intros r [I|I]; apply I2.
     + left. rewrite Ec in I. eapply In_firstn; eauto.
     + right. unfold physical in *. cbn [s_tail s_ghost] in I. rewrite kill_last_fst in I. exact I.
-  - intros S'. congruence.
-Qed.
-
-Lemma reload_first cur a l r rest : reload H cur a l = r :: rest ->
-  h_id (t_hdr r) = cur + 1 /\ h_prevalh (t_hdr r) = a.
-Proof.
-  destruct l as [|x l]; simpl; [discriminate|].
-  destruct (h_id (t_hdr x) =? cur + 1) eqn:E1; simpl; [|discriminate].
-  destruct (beq (h_prevalh (t_hdr x)) a) eqn:E2; [|discriminate].
-  intros E. inversion E; subst. simpl. split; [apply N.eqb_eq; auto | apply beq_eq; auto].
-Qed.
-Lemma reload_takes_first cur a x l : h_id (t_hdr x) = cur + 1 -> h_prevalh (t_hdr x) = a ->
-  reload H cur a (x :: l) <> [].
-Proof.
-  intros E1 E2. simpl. rewrite E1, N.eqb_refl, E2, beq_refl. simpl. discriminate.
 Qed.
 
 Lemma restart_inv st : Inv st -> Inv (restart H c st).
 Proof.
-  intros [I1 I2 I3]. unfold restart.
+  intros [I1 I2]. unfold restart.
   remember (if c_embedded c then [] else reload H (com_id st) (com_alh H st) (physical st)) as back eqn:Hb.
   assert (Bin : forall r, In r back -> In r (physical st) /\ genuine r).
   { intros r I. rewrite Hb in I. destruct (c_embedded c); [contradiction|].
@@ -444,54 +355,27 @@ Proof.
     + apply Bin; auto.
     + apply Bin; auto.
     + apply I2. right. eapply In_skipn; eauto.
-  - intros S. destruct (I3 S) as [Z F]. split.
-    + cbn [s_hold]. unfold pre_id, chain. cbn [s_com s_tail]. rewrite live_all.
-      destruct (s_com st) as [|x0 cm] eqn:Ec; [|right; rewrite lenN_app; unfold lenN; cbn [length]; lia].
-      destruct back as [|b0 bk]; [|right; rewrite lenN_app; unfold lenN; cbn [length]; lia].
-      left. unfold hold_reopen. rewrite Ec. cbn [rev length].
-      destruct (c_embedded c) eqn:Em; [reflexivity|].
-      destruct (physical st) as [|r0 ph] eqn:Ep; [reflexivity|]. exfalso.
-      specialize (F Ec). rewrite Ep in F. destruct F as [F1 F2].
-      symmetry in Hb. revert Hb. apply reload_takes_first.
-      * unfold com_id. rewrite Ec. exact F1.
-      * unfold com_alh, last_alh. rewrite Ec. exact F2.
-    + intros Ec. cbn [s_com] in Ec. unfold physical at 1. cbn [s_tail s_ghost].
-      rewrite map_map. cbn [fst]. rewrite map_id.
-      specialize (F Ec).
-      destruct back as [|b0 bk].
-      * simpl. exact F.
-      * simpl. destruct (c_embedded c); [discriminate|]. symmetry in Hb.
-        apply reload_first in Hb. unfold com_id, com_alh, last_alh in Hb. rewrite Ec in Hb. exact Hb.
 Qed.
 
 (* ---- every schedule ---- *)
-Definition sched_ok (acts : list action) : Prop :=
-  c_stale c = false \/ (linked P = true /\ forallb (fun a => negb (is_discard a)) acts = true).
-
-Lemma act_inv st a : Inv st ->
-  (c_stale c = false \/ (linked P = true /\ is_discard a = false)) -> Inv (act H c P st a).
+Lemma act_inv st a : Inv st -> Inv (act H c P st a).
 Proof.
-  intros I Hs. destruct a as [skip j tr|t|t|]; cbn [act].
+  intros I. destruct a as [skip j tr|t|t|]; cbn [act].
   - destruct (nth_error P j) as [p|] eqn:En; auto.
     destruct (export_rec tr p) as [b| |] eqn:Ex; auto.
     unfold replicate_st. destruct (replicate H c skip st b) as [st'| |] eqn:Er.
-    + eapply deliver_ok; eauto. intros S. destruct Hs as [Q|[Q _]]; [congruence|auto].
-    + eapply deliver_err; eauto. intros S. destruct Hs as [Q|[Q _]]; [congruence|auto].
-    + eapply deliver_err; eauto. intros S. destruct Hs as [Q|[Q _]]; [congruence|auto].
+    + eapply deliver_ok; eauto.
+    + eapply deliver_err; eauto.
+    + eapply deliver_err; eauto.
   - destruct (allow_commit c st t) as [s| |] eqn:E; auto. eapply allow_inv; eauto.
-  - destruct (discard st t) as [[s n]| |] eqn:E; auto.
-    destruct Hs as [Q|[_ Q]]; [|discriminate]. eapply discard_inv; eauto.
+  - destruct (discard st t) as [[s n]| |] eqn:E; auto. eapply discard_inv; eauto.
   - apply restart_inv; auto.
 Qed.
 
-Lemma run_inv : forall acts st, Inv st -> sched_ok acts -> Inv (fold_left (act H c P) acts st).
+Lemma run_inv : forall acts st, Inv st -> Inv (fold_left (act H c P) acts st).
 Proof.
-  induction acts as [|a acts IH]; intros st I Hs; simpl; auto.
-  apply IH.
-  - apply act_inv; auto. destruct Hs as [Q|[Q1 Q2]]; auto. right. split; auto.
-    simpl in Q2. apply andb_prop in Q2 as [Q2 _]. apply negb_true_iff; auto.
-  - destruct Hs as [Q|[Q1 Q2]]; [left; auto|right; split; auto].
-    simpl in Q2. apply andb_prop in Q2 as [_ Q2]. auto.
+  induction acts as [|a acts IH]; intros st I; simpl; auto.
+  apply IH. apply act_inv; auto.
 Qed.
 
 (* ---- from the invariant to the prefix statement ---- *)
@@ -530,11 +414,11 @@ Proof.
   induction 1 as [|x y l l' M _ IH]; simpl; auto. destruct (matches_hdr _ _ M) as [_ ->]. f_equal; auto.
 Qed.
 
-Theorem replica_prefix_sched acts : sched_ok acts ->
+Theorem replica_prefix_run acts :
   is_prefix P (chain (run H c P acts)) /\ is_prefix P (s_com (run H c P acts)) /\
   map t_alh (chain (run H c P acts)) = map t_alh (firstn (length (chain (run H c P acts))) P).
 Proof.
-  intros Hs. destruct (run_inv acts store_init Inv_init Hs) as [I1 I2 _].
+  destruct (run_inv acts (store_open c) Inv_init) as [I1 I2].
   fold (run H c P acts) in *.
   assert (A : is_prefix P (chain (run H c P acts))) by (apply prefix_of_inv; auto).
   split; auto. split.
@@ -546,20 +430,10 @@ Qed.
 
 End Prefix.
 
-(* the statement for the repaired code (tx holder cleared): every schedule *)
+(* replica_prefix: every primary history, every schedule *)
 Theorem replica_prefix (H : bytes -> bytes) (c : cfg) (P : list txrec) (acts : list action) :
-  c_stale c = false -> primary_valid H P = true ->
+  primary_valid H P = true ->
   let st := run H c P acts in
   is_prefix P (chain st) /\ is_prefix P (s_com st) /\
   map t_alh (chain st) = map t_alh (firstn (length (chain st)) P).
-Proof. intros S V. apply replica_prefix_sched; auto. left; auto. Qed.
-
-(* the statement that survives the stale tx holder: schedules without DiscardPrecommittedTxsSince,
-   primary histories linked the way performPrecommit links them *)
-Theorem replica_prefix_partial (H : bytes -> bytes) (c : cfg) (P : list txrec) (acts : list action) :
-  primary_valid H P = true -> linked P = true ->
-  forallb (fun a => negb (is_discard a)) acts = true ->
-  let st := run H c P acts in
-  is_prefix P (chain st) /\ is_prefix P (s_com st) /\
-  map t_alh (chain st) = map t_alh (firstn (length (chain st)) P).
-Proof. intros V L N. apply replica_prefix_sched; auto. right; auto. Qed.
+Proof. intros V. apply replica_prefix_run; auto. Qed.
